@@ -285,7 +285,7 @@ def one_case(ctx, progs, label="gen", script=None):
                          dict(case, at=j), {"node": i, "answer": str(r[1])[:200], "fresh": str(fresh[j])[:200]})
             if unsafe_seen and r[1] != fresh[j]:
                 # after an unfreeze below a frozen parent (known finding) an unfrozen ancestor reads through the
-                # frozen parent's stale cache; the model tracks versions per frozen node only (A.5 of DESIGN.md)
+                # frozen parent's stale cache; the model tracks versions per frozen node only (A.6 of DESIGN.md)
                 ctx.hit("read-through-stale-after-unsafe-unfreeze")
             elif r[1][:3] != expected:
                 ctx.disagree("C13.answer-version", dict(case, at=j), {"real": str(r[1])[:200]}, {"model_version": v, "current": cur, "expected": str(expected)[:200]})
